@@ -2,6 +2,7 @@ package main
 
 import (
 	"fmt"
+	"strings"
 	"time"
 
 	tally "github.com/uber-go/tally/v4"
@@ -10,7 +11,7 @@ import (
 
 func c09Scenarios(tier string) []*Scenario {
 	var out []*Scenario
-	kinds := []string{"counter", "gauge", "timer", "histogram", "tagged", "subscope", "mixed", "tagged+victim", "tagged+stale"}
+	kinds := []string{"counter", "gauge", "timer", "histogram", "tagged", "subscope", "mixed", "tagged+victim", "tagged+stale", "two-long-identities"}
 	type variant struct {
 		kind    string
 		cached  bool
@@ -85,6 +86,11 @@ func c09Scenarios(tier string) []*Scenario {
 						c := s.Tagged(map[string]string{"t": "1"})
 						c.Counter("x").Inc(val)
 						objs[i] = c
+					case "two-long-identities":
+						// two DIFFERENT new identities at once whose registry keys are longer than any fixed-size key buffer
+						c := s.Tagged(map[string]string{"t": strings.Repeat("v", 300) + fmt.Sprint(i)})
+						c.Counter("x").Inc(val)
+						objs[i] = c
 					case "subscope":
 						c := s.SubScope("q")
 						c.Counter("x").Inc(val)
@@ -105,7 +111,11 @@ func c09Scenarios(tier string) []*Scenario {
 			}
 			p.Join()
 			tally.VerifReportOnce(root)
-			if v.kind != "mixed" {
+			if v.kind == "two-long-identities" {
+				if objs[0] == objs[1] {
+					x.failf("distinct-identities-share-scope", "two different long tag values were given one scope")
+				}
+			} else if v.kind != "mixed" {
 				for i := 1; i < v.threads; i++ {
 					if objs[i] != objs[0] {
 						x.failf("different-objects", "concurrent first users of one %s identity received different objects", v.kind)
@@ -143,6 +153,14 @@ func c09Scenarios(tier string) []*Scenario {
 				}
 			case "subscope":
 				if cl, d := counterOracle(log, map[string]int64{pre + "q.x{}": total}, -1, true); cl != "" {
+					return cl, d, "viol"
+				}
+			case "two-long-identities":
+				want := map[string]int64{}
+				for i := 0; i < v.threads; i++ {
+					want[pre+"x"+tagString(map[string]string{"t": strings.Repeat("v", 300) + fmt.Sprint(i)})] = int64(1) << uint(i)
+				}
+				if cl, d := counterOracle(log, want, -1, true); cl != "" {
 					return cl, d, "viol"
 				}
 			case "mixed":
